@@ -458,7 +458,7 @@ func init() {
 		ID: "C04", Level: "exploration", Parallel: 12, Batch: 1, MinConclusive: 40,
 		Rule: "acks: deliveries on 2-8 vBuckets are acknowledged in reverse / random order, repeatedly, late, and concurrently from one goroutine per vBucket while two readers poll GET /states/offset; " +
 			"oracle: TrackOffset notifications never decrease, the quiescent read / last notification / next save equal max(resume, furthest settled), and each vBucket's reads are linearizable against a max-register (porcupine, partitioned by vBucket). " +
-			"range: dynamic membership shrinks the assigned range (PUT /membership/info), then events delivered before are acknowledged: no tracker notification, offsets entry or checkpoint write may appear for a vBucket outside the range. " +
+			"range: dynamic membership shrinks the assigned range (PUT /membership/info), then events delivered before are acknowledged: no tracker notification, offsets entry or checkpoint write may appear for a vBucket outside the range; moved-range: a rebalance to another range of the same size, acknowledgements in the new range; gap: acknowledgements while the stream is closed for a rebalance, also from inside AfterStreamStop. " +
 			"Non-trivial: an out-of-order or repeated acknowledgement with >=2 vBuckets acknowledged concurrently, or a stale acknowledgement after a range change; distinct = distinct abstract traces",
 		Assumptions: []string{"acknowledgements of one vBucket are issued one at a time (harness lock per vBucket), as the quantifier states", "reads go through the public HTTP API (debug mode)"},
 		Gen: func(seed int64, tier string) []drv.Scenario {
